@@ -48,7 +48,8 @@ ELEM_COMBINATORS = {"Iterator::map", "Iterator::filter", "Iterator::filter_map",
 
 def short(path):
     """last two segments of a def path without generic args: 'std::collections::HashMap::<K,V>::insert' -> 'HashMap::insert'"""
-    p = re.sub(r"<[^<>]*>", "", path)
+    p = re.sub(r"num::<impl ([iu](?:8|16|32|64|128|size))>", r"\1", path)
+    p = re.sub(r"<[^<>]*>", "", p)
     while "<" in p:
         q = re.sub(r"<[^<>]*>", "", p)
         if q == p:
